@@ -217,7 +217,7 @@ Section MonitorSound.
     pose proof (G e (or_introl eq_refl)) as Ge. unfold good in Ge.
     destruct (e_ts e) as [s|repr] eqn:Ets; [exact (IH Gr p I)|].
     destruct Ge as [n [Hn Hs]].
-    unfold attach at 1 in I. unfold realise at 1 in I. cbn [ts i_inst] in I. rewrite Ets in I.
+    unfold attach at 1 in I. cbn [i_inst] in I. change (ts (realise e)) with (realise_ts (e_ts e)) in I. rewrite Ets in I.
     destruct (realise_integral repr n Hn Hs) as [[R E]|[R E]]; rewrite E in I.
     - rewrite Hn, R in I. destruct I as [<-|I]; [now split|exact (IH Gr p I)].
     - exact (IH Gr p I).
@@ -241,7 +241,7 @@ Section MonitorSound.
   Proof.
     intros H I. unfold C13.exp_line in I. destruct (decode l) as [|kvs] eqn:D; [destruct I|].
     apply in_flat_map in I. destruct I as [m [_ I]].
-    destruct (jlookup m kvs) as [[v|r|]|]; try destruct I. destruct I as [<-|[]].
+    destruct (jlookup m kvs) as [[v|r|]|]; [|destruct I|destruct I|destruct I]. destruct I as [<-|[]].
     unfold good. cbn [e_ts]. unfold C13.exp_ts.
     destruct (jlookup timestamp_key kvs) as [[s|repr|]|] eqn:T; try exact I.
     - now destruct (nonempty s && rfc3339 s).
@@ -286,3 +286,56 @@ Section MonitorSound.
     - reflexivity.
   Qed.
 End MonitorSound.
+
+(* ------------------------------------------------------------------ epoch timestamps, in terms of numerals *)
+
+(* value of the numeral [a] is below the value of [b] *)
+Definition value_lt (a b : numeral) : Prop := num a * 10 ^ Z.of_nat (scale b) < num b * 10 ^ Z.of_nat (scale a).
+
+Lemma epoch_integral_numeral rfc3339 repr n :
+  read_numeral repr = Some n -> scale n = 0%nat -> in_int64 (num n) = true ->
+  epoch_instant repr = Some (num n * 10 ^ 9) /\
+  parse_timestamp rfc3339 (JNumber repr) = Some (TsUnix (num n * 10 ^ 9)) /\
+  same_instant n (num n * 10 ^ 9) = true.
+Proof.
+  intros H Hs R. destruct (numeral_integral repr n H Hs) as [N [P _]].
+  pose proof (epoch_integral repr (num n) N P R) as E. split; [exact E|]. split.
+  - cbn [parse_timestamp]. now rewrite E.
+  - unfold same_instant. rewrite Hs. cbn [Z.of_nat]. change (10 ^ 0) with 1. rewrite Z.mul_1_r, Z.sub_diag. reflexivity.
+Qed.
+
+Lemma epoch_integral_order r1 r2 n1 n2 z1 z2 :
+  read_numeral r1 = Some n1 -> read_numeral r2 = Some n2 -> scale n1 = 0%nat -> scale n2 = 0%nat ->
+  epoch_instant r1 = Some z1 -> epoch_instant r2 = Some z2 -> value_lt n1 n2 -> z1 < z2.
+Proof.
+  intros H1 H2 S1 S2 E1 E2 L. unfold value_lt in L. rewrite S1, S2 in L. cbn [Z.of_nat] in L. change (10 ^ 0) with 1 in L.
+  destruct (numeral_integral r1 n1 H1 S1) as [N1 [P1 _]]. destruct (numeral_integral r2 n2 H2 S2) as [N2 [P2 _]].
+  unfold epoch_instant in E1, E2. rewrite (split_on_no_occurrence dot r1 N1) in E1. rewrite (split_on_no_occurrence dot r2 N2) in E2.
+  cbn [hd length Nat.eqb] in E1, E2. unfold parse_int64 in E1, E2. rewrite P1 in E1. rewrite P2 in E2.
+  destruct (in_int64 (num n1)); [|discriminate]. destruct (in_int64 (num n2)); [|discriminate].
+  injection E1 as <-. injection E2 as <-. lia.
+Qed.
+
+Lemma epoch_refuted :
+  exists r1 r2 n1 n2 z1 z2,
+    read_numeral r1 = Some n1 /\ read_numeral r2 = Some n2 /\ value_lt n1 n2 /\
+    epoch_instant r1 = Some z1 /\ epoch_instant r2 = Some z2 /\ z2 < z1 /\
+    same_instant n1 z1 = false /\ same_instant n2 z2 = false.
+Proof.
+  exists (B "1638422847.25"), (B "1638422847.5"),
+         (Numeral 163842284725 2 1638422847), (Numeral 16384228475 1 1638422847),
+         1638422847000000025, 1638422847000000005.
+  repeat split; vm_compute; reflexivity.
+Qed.
+
+(* a tracked name listed twice is reported twice from one JSON line *)
+Lemma json_dup_refuted :
+  exists (decode : str -> jline) ms content r,
+    length (split_lines content) = 1%nat /\
+    collect unit tt (fun _ => true) (fun _ _ => []) (fun _ => false) decode JSON ms [] content = Ok r /\ ~ NoDup r.
+Proof.
+  exists (fun _ => JObj [(B "acc", JString (B "0.9")); (B "loss", JString (B "0.3"))]),
+         [B "loss"; B "acc"; B "acc"], (B "{""loss"": ""0.3"", ""acc"": ""0.9""}").
+  eexists. split; [vm_compute; reflexivity|]. split; [vm_compute; reflexivity|].
+  intro H. inversion H as [|? ? _ H1]. inversion H1 as [|? ? N _]. apply N. now left.
+Qed.
